@@ -4,6 +4,7 @@ use vcommon::Args;
 mod c01;
 mod c02;
 mod c03;
+mod c04;
 #[path = "../../mon_leaf/src/fri_attacks.rs"]
 #[allow(dead_code)]
 mod fri_attacks;
@@ -28,6 +29,7 @@ fn main() {
         "c01" => c01::run(&args),
         "c02" => c02::run(&args),
         "c03" => c03::run(&args),
+        "c04" => c04::run(&args),
         "c05" => c05::run(&args),
         "c06" => c06::run(&args),
         "c07" => c07::run(&args),
